@@ -90,7 +90,18 @@ func VerifC09Retention() {
 	if withBackup {
 		w.store.BackupClient = verifBackup{}
 	}
-	hwm := ltx.TXID(rt.Choose("hwm", k+2))
+	// the oldest file may cover several transactions (a received snapshot); the others cover one each
+	span := 1 + rt.Choose("first.span", 3)
+	lo, hi := make([]ltx.TXID, k), make([]ltx.TXID, k)
+	next := ltx.TXID(1)
+	for i := 0; i < k; i++ {
+		lo[i], hi[i] = next, next
+		if i == 0 {
+			hi[i] = next + ltx.TXID(span) - 1
+		}
+		next = hi[i] + 1
+	}
+	hwm := ltx.TXID(rt.Choose("hwm", int(next)+1))
 	db.SetHWM(hwm)
 	mtimes := make([]int64, k)
 	prev := int64(1 << 30)
@@ -99,14 +110,14 @@ func VerifC09Retention() {
 		mtimes[i] = rt.I64("mtime")
 		rt.Assume(mtimes[i] >= prev && mtimes[i] < 1<<60)
 		prev = mtimes[i]
-		path := db.LTXPath(ltx.TXID(i+1), ltx.TXID(i+1))
+		path := db.LTXPath(lo[i], hi[i])
 		must(os.WriteFile(path, []byte("x"), 0o666))
 		t := rt.MkTime(mtimes[i])
 		must(os.Chtimes(path, t, t))
 	}
 	// other files a transaction log directory can contain at sweep time
-	strays := []string{"0000000000000000-0000000000000000.ltx.tmp", ltx.FormatFilename(ltx.TXID(k+1), ltx.TXID(k+1)) + ".tmp",
-		ltx.FormatFilename(ltx.TXID(k), ltx.TXID(k)) + ".7.tmp", "zzz-garbage"}
+	strays := []string{"0000000000000000-0000000000000000.ltx.tmp", ltx.FormatFilename(next, next) + ".tmp",
+		ltx.FormatFilename(hi[k-1], hi[k-1]) + ".7.tmp", "zzz-garbage"}
 	for _, name := range strays {
 		if rt.Choose("stray.present", 2) == 1 {
 			path := filepath.Join(db.LTXDir(), name)
@@ -121,14 +132,14 @@ func VerifC09Retention() {
 	rt.Check(err == nil, "EnforceRetention succeeds")
 	kept := make([]bool, k)
 	for i := 0; i < k; i++ {
-		kept[i] = !verifGone(db.LTXPath(ltx.TXID(i+1), ltx.TXID(i+1)))
+		kept[i] = !verifGone(db.LTXPath(lo[i], hi[i]))
 	}
 	rt.Check(kept[k-1], "retention never removes the newest file")
 	for i := 0; i < k; i++ {
 		if !kept[i] {
 			rt.Check(mtimes[i] < cut, "only files older than the cutoff are removed")
 			if withBackup {
-				rt.Check(ltx.TXID(i+1) < hwm, "a file the backup service has not confirmed is never removed")
+				rt.Check(hi[i] <= hwm, "a file the backup service has not confirmed (any of its transactions above the high-water mark) is never removed")
 			}
 			rt.Reach("c09.removed")
 		}
